@@ -33,8 +33,14 @@ package hh
 //@   modifies nothing
 
 //@ func (*queue).Append
-//@   assumed
-//@   modifies queue.all, segment.all
+//@   props C04
+//@   nosafety
+//@   modifies queue.all, segment.all, l.segments[:]
+//@   ghost on_disk bool = false
+//@   at after segment.append#1: ghost on_disk = callresult == nil && !buffered
+//@   at after segment.append#2: ghost on_disk = callresult == nil && !buffered
+//@   at after segment.flush#1 in Append$1: ghost on_disk = on_disk || callresult == nil
+//@   ensures durable_when_acknowledged: result == nil ==> on_disk
 
 // WriteShard splits a batch too large for one block by bisection: ghost `appended` is the number of leading
 // points handed to the queue so far (chunks are contiguous and in order); success means every point was.
@@ -100,6 +106,7 @@ package hh
 //@ func (*segment).append
 //@   props C04
 //@   nosafety
+//@   modifies segment.all
 //@   ghost flushed_before_full bool = false
 //@   ghost flushed_unbuffered bool = false
 //@   at after segment.flush#1: ghost flushed_before_full = callresult == nil
@@ -115,6 +122,14 @@ package hh
 // An age purge of a queue whose only segment expired adds a fresh segment and trims the old one. Afterwards the
 // tail must be that fresh segment: left pointing at the closed segment, every later Append is refused.
 //@ func (*segment).close
+//@   props C04
+//@   nosafety
+//@   modifies segment.all
+//@   ghost flushed bool = false
+//@   at after segment.flush#1: ghost flushed = callresult == nil
+//@   call File.Close#1 requires accepted_blocks_reach_the_file_first: flushed
+//@   ensures accepted_blocks_reach_the_file: result == nil ==> flushed
+//@ func (*segment).flush
 //@   assumed
 //@   modifies segment.all
 //@ func (*segment).lastModified
@@ -137,7 +152,7 @@ package hh
 // (SendWrite holds no queue lock in between), so that branch may only trim an exhausted head segment.
 //@ func (*queue).Advance
 //@   assumed
-//@   modifies queue.all, segment.all
+//@   modifies queue.all, segment.all, l.segments[:]
 
 //@ func (*NodeProcessor).SendWrite
 //@   props C04
